@@ -162,10 +162,27 @@ def cfgs(tier):
     return out
 
 
+def fail_release_cfgs(tier):
+    """Two calls in flight at the interrupt: one fails afterwards (error budget not exhausted), the other
+    completes and makes children ready.  With the 'random' queue a child can be popped before a sentinel,
+    so the stop request itself must keep it from starting."""
+    out = []
+    for W in (2, 3):
+        for fail in ({"0": "exc"}, {"0": "base"}, {"1": "exc"}):
+            for me in (None, 1):
+                if tier == "quick" and (W == 3 or me == 1) and fail != {"0": "exc"}:
+                    continue
+                out.append({"n": 4, "edges": [(1, 2, "p"), (1, 3, "d")], "output": [0, 1, 2, 3], "W": W, "sched": "random",
+                            "observer": "rec", "fail": fail, "max_errors": me, "shape": "two-in-flight-one-fails-other-releases"})
+    return out
+
+
 def run(tier):
     engine.install_pool_bc_all()
     budget = {"preempt": 1, "interrupt": 1, "random": 1} if tier == "quick" else {"preempt": 2, "interrupt": 1, "random": 1}
-    ex = [("interrupt at every point with a call in flight", FACTORY, cfgs(tier), budget)]
+    ex = [("interrupt at every point with a call in flight", FACTORY, cfgs(tier), budget),
+          ("interrupt + a call failing after it + children becoming ready, random queue (<= 2 non-default draws)", FACTORY,
+           fail_release_cfgs(tier), {"preempt": 0, "interrupt": 1, "random": 2, "yield": 2} if tier == "quick" else {"preempt": 1, "interrupt": 1, "random": 2, "yield": 1})]
     res = e1prop.run(PROP, ex)
     return res
 
